@@ -5,7 +5,8 @@
    the controllers (so any loss, duplication, reordering, delay), fires either timer, or lets an endpoint say
    anything (contract-abiding or not) — of any length. [run] folds the controllers' real step functions. *)
 From Coq Require Import ZArith List Bool.
-From GV Require Import C42.Model C42.Lemmas C42.InvP C42.InvC C42.Proofs.
+From GV Require Import C42.Model C42.Lemmas C42.InvP C42.InvC C42.Proofs C42.Progress.
+From GV Require C42.Examples.
 Import ListNotations.
 Open Scope Z_scope.
 
@@ -38,6 +39,23 @@ Theorem C42_chain_confirmed_delivered_stored : forall sess notify W ops,
   p_unconf (sP s) = number (p_conf (sP s)) (skipn (Z.to_nat (p_conf (sP s))) (p_log (sP s))).
 Proof. intros. eapply chain; try eassumption; apply reach_inv; assumption. Qed.
 
+(* Progress ("every produced message is eventually confirmed", under eventual non-lossiness): from EVERY reachable
+   state in which the producer controller is alive, the sequence space is not exhausted and something is
+   unconfirmed, the continuation [recover s] computed from the state — two consumer ticks, loss-free delivery of the
+   newest controller messages in order, the consumer endpoint confirming what it is handed — consists of legitimate
+   steps only and strictly increases the producer's confirmedSeq. (The state after it is reachable again, so the
+   argument repeats until everything stored is confirmed.) *)
+Theorem C42_progress_confirmed_increases : forall sess notify W ops,
+  sess <> 0 -> 1 <= W -> W <= maxWindowCap -> forallb legit ops = true ->
+  let s := run (sys_init sess notify W) ops in
+  p_failed (sP s) = false -> p_cur (sP s) < maxI64 - 1 -> p_conf (sP s) < p_cur (sP s) ->
+  forallb legit (recover s) = true /\ p_conf (sP s) < p_conf (sP (run s (recover s))).
+Proof.
+  intros. split; [apply recover_legit|].
+  apply (recover_progress sess W); auto; [apply reach_inv; assumption|apply nn_reach].
+Qed.
+
 Print Assumptions C42_in_order_no_gaps.
 Print Assumptions C42_represented_only_while_in_flight.
 Print Assumptions C42_chain_confirmed_delivered_stored.
+Print Assumptions C42_progress_confirmed_increases.
